@@ -257,6 +257,12 @@ type params struct {
 	refreshGrant bool
 	scopes   []string
 	narrowed []string // refresh / token exchange: scope parameter of the final request (nil = none)
+	// refresh: the request under test ends a HISTORY of refresh requests on one grant
+	earlier    []earlierReq // requests made on the grant before the one under test (within this case)
+	grant      *grantState  // shared by the cases of a refresh_chain history: the grant all of them work on (nil = a fresh one)
+	liveGrants bool         // storage style: TokenRequestByRefreshToken hands out the LIVE stored record (SetCurrentScopes writes into it)
+	prePoll    bool         // device: the client polls once before the user has approved (authorization_pending)
+	preBadRedirect bool     // code: the code is first presented with another redirect_uri (refused), then properly
 	dropID   []string
 	dropAT   []string
 	subject  string
@@ -498,6 +504,120 @@ func customNameScopes(r drv.Rand, p params) []string {
 
 var issuerHosts = []string{"op.example.com", "tenant-a.example.com", "login.example.org:8443", "b.tenant.example.net", "Tenant-B.Example.COM"}
 
+// ---------------------------------------------------------------- refresh histories
+
+// earlierReq: one refresh request on a grant. owner = made by the client the grant belongs to
+// (else: the OTHER client presents the token with its own credentials); scopes = its scope
+// parameter (nil = none).
+type earlierReq struct {
+	owner  bool
+	scopes []string
+}
+
+// grantState: one refresh grant as the TEST SIDE knows it: the scopes the user authorized (g0,
+// copied from the stored refresh token right after the code flow, before any refresh request),
+// the request's fixed members, every refresh request made on it so far, and the refresh token
+// that is valid now (the driver follows the rotation by the responses).
+type grantState struct {
+	token string
+	g0    []string
+	sub   string
+	aud   []string
+	amr   []string
+	auth  int64
+	hist  []earlierReq
+}
+
+func subsetOf(a, b []string) bool {
+	for _, x := range a {
+		if !contains(b, x) {
+			return false
+		}
+	}
+	return true
+}
+
+// standing: test-side mirror (tags, user lookup, generator only - the case's ground truth is
+// computed in Coq from g0 / history / scope parameter): the scopes the valid token stands for.
+func standing(g0 []string, hist []earlierReq) []string {
+	cur := g0
+	for _, e := range hist {
+		if e.owner && len(e.scopes) > 0 && subsetOf(e.scopes, cur) {
+			cur = e.scopes
+		}
+	}
+	return cur
+}
+
+var neverGranted = []string{"phone", "email", "profile", "address", "custom:x", "custom:y", "custom:never", "openid", "offline_access", "admin", "custom:iss"}
+
+// beyond: a scope parameter that asks for more than cur: a subset of cur plus one scope outside it
+// (one the authorization had and an earlier request narrowed away, or one that was never granted)
+func beyond(r drv.Rand, cur, g0 []string) []string {
+	out := subset(r, cur)
+	cands := []string{}
+	for _, x := range g0 {
+		if !contains(cur, x) {
+			cands = append(cands, x, x)
+		}
+	}
+	for _, x := range neverGranted {
+		if !contains(cur, x) {
+			cands = append(cands, x)
+		}
+	}
+	extra := drv.Pick(r, cands)
+	if r.Bool() {
+		return append([]string{extra}, out...)
+	}
+	return append(out, extra)
+}
+
+// genRefreshStep draws one refresh request relative to what the token stands for (cur):
+// by the owner without scope / within cur (accepted, narrows) / beyond cur (refused), or by the
+// other client with a scope parameter that would have been acceptable / beyond / none (refused).
+func genRefreshStep(r drv.Rand, cur, g0 []string, refusedMostly bool) earlierReq {
+	k := r.IntN(6)
+	if refusedMostly && k < 2 && r.Chance(2, 3) {
+		k = 2 + r.IntN(2)
+	}
+	switch k {
+	case 0:
+		return earlierReq{owner: true}
+	case 1:
+		if sub := subset(r, cur); len(sub) > 0 {
+			return earlierReq{owner: true, scopes: sub}
+		}
+		return earlierReq{owner: true, scopes: append([]string{}, cur...)}
+	case 2, 3:
+		return earlierReq{owner: true, scopes: beyond(r, cur, g0)}
+	case 4:
+		if sub := subset(r, cur); len(sub) > 0 {
+			return earlierReq{owner: false, scopes: sub}
+		}
+		return earlierReq{owner: false}
+	default:
+		return earlierReq{owner: false, scopes: beyond(r, cur, g0)}
+	}
+}
+
+// genFinalScopes: the scope parameter of the request under test: none (1/2), all of cur, a subset,
+// rarely beyond cur (the request under test is then refused: nothing may be issued)
+func genFinalScopes(r drv.Rand, cur, g0 []string) []string {
+	switch r.IntN(12) {
+	case 0, 1, 2:
+		if sub := subset(r, cur); len(sub) > 0 {
+			return sub
+		}
+		return nil
+	case 3, 4:
+		return append([]string{}, cur...)
+	case 5:
+		return beyond(r, cur, g0)
+	}
+	return nil
+}
+
 // histSlot: the parameters open a multi-issuance history (JWT access tokens are preferred there:
 // only then does one response make two Storage.SigningKey calls)
 func gen(r drv.Rand, i int, nKeys int, histSlot bool, sweep int) params {
@@ -586,7 +706,7 @@ func gen(r drv.Rand, i int, nKeys int, histSlot bool, sweep int) params {
 	if r.Chance(1, 2) {
 		p.amr = drv.Pick(r, [][]string{{"pwd", "otp"}, {"hwk"}, {}})
 	}
-	p.authAgo = drv.Pick(r, []int64{1, 1, 60, 3000, -1})
+	p.authAgo = drv.Pick(r, []int64{1, 1, 60, 3000, -1, -1, 0, 34560000}) // zero time (no authentication recorded), just now, 400 days ago
 	p.state = drv.Pick(r, []string{"st-1", "xyz.~-_", "", "st-1", "null", "0", " st ", "[]", strings.Repeat("s", 1500)})
 	p.teSubjectType = drv.Pick(r, []string{"refresh", "id", "jwt"})
 	if r.Chance(1, 2) {
@@ -614,15 +734,6 @@ func gen(r drv.Rand, i int, nKeys int, histSlot bool, sweep int) params {
 		if !contains(p.scopes, "offline_access") {
 			p.scopes = append(p.scopes, "offline_access")
 		}
-		switch r.IntN(4) {
-		case 0:
-			p.narrowed = subset(r, p.scopes)
-			if len(p.narrowed) == 0 {
-				p.narrowed = nil
-			}
-		case 1:
-			p.narrowed = append([]string{}, p.scopes...)
-		}
 	case "te_access", "te_refresh", "te_id":
 		p.refreshGrant = true
 		if !contains(p.scopes, "offline_access") {
@@ -646,14 +757,20 @@ func gen(r drv.Rand, i int, nKeys int, histSlot bool, sweep int) params {
 		if strings.HasPrefix(p.flow, "te_") && p.narrowed != nil {
 			p.narrowed = append(p.narrowed, p.customs...)
 		}
-		if p.flow == "refresh" && p.narrowed != nil && r.Chance(2, 3) {
-			for _, sc := range p.customs {
-				if !contains(p.narrowed, sc) {
-					p.narrowed = append(p.narrowed, sc)
-				}
-			}
-		}
 	}
+	// refresh: the request under test ends a history of 0-3 earlier requests on the grant
+	p.liveGrants = r.Bool()
+	if p.flow == "refresh" {
+		cur := p.scopes
+		for n := drv.Pick(r, []int{0, 0, 1, 1, 2, 3}); n > 0; n-- {
+			e := genRefreshStep(r, cur, p.scopes, false)
+			p.earlier = append(p.earlier, e)
+			cur = standing(cur, []earlierReq{e})
+		}
+		p.narrowed = genFinalScopes(r, cur, p.scopes)
+	}
+	p.prePoll = r.Chance(1, 3)
+	p.preBadRedirect = r.Chance(1, 4)
 	// verification: mostly the consistent configuration
 	alg := string(allAlgs[p.key])
 	p.vAlgs = []string{alg}
@@ -705,6 +822,10 @@ type result struct {
 	rqAMR     []string
 	rqAuth    int64
 	rqActor   string
+	// refresh: the history the request under test ends (ground truth for the case input)
+	g0        []string
+	earlier   []earlierReq
+	requested []string
 	seq       int
 	t0, t1    time.Time
 	newTokens []*refstore.Token
@@ -777,6 +898,7 @@ func setup(p params, sk signState, provAlgs []string) (*refstore.Store, *opfix.F
 	desk.ID, desk.Secret = "desk", "desk-secret"
 	st.Clients["desk"] = &desk
 	st.SetAccessTokenIDSuffix(p.atIDSuffix)
+	st.SetLiveRefreshGrants(p.liveGrants) // refstore/ext_c07.go: SetCurrentScopes of a refresh request writes into the stored token
 	for _, s := range append(append([]string{}, subjects...), unicodeSubjects...) {
 		if s != "nobody" && st.Users[s] == nil {
 			st.Users[s] = &refstore.User{Subject: s, Name: "N " + s, Email: "e@" + strings.ReplaceAll(s, ":", ".")}
@@ -982,6 +1104,9 @@ func run(p params, st *refstore.Store, f *opfix.Fixture, arm func()) *result {
 		cb := f.Callback(p.router, id)
 		res.code = cb.ResponseParams().Get("code")
 		fromAuthRequest(res, st.AuthReqs[id])
+		if p.preBadRedirect { // a refused request on the same code first: another redirect_uri
+			f.Post(p.router, "/oauth/token", url.Values{"grant_type": {"authorization_code"}, "code": {res.code}, "redirect_uri": {redirect + "/other"}}, basic(p), "")
+		}
 		bracket(func() *opfix.Resp {
 			return f.Post(p.router, "/oauth/token", url.Values{"grant_type": {"authorization_code"}, "code": {res.code}, "redirect_uri": {redirect}}, basic(p), "")
 		})
@@ -1017,23 +1142,67 @@ func run(p params, st *refstore.Store, f *opfix.Fixture, arm func()) *result {
 			res.status = 200
 		}
 	case "refresh":
-		first := codeFlow(p, st, f)
-		if first == nil || first.Str("refresh_token") == "" {
-			return res
+		g := p.grant
+		if g == nil {
+			g = &grantState{}
 		}
-		rtok := first.Str("refresh_token")
-		rt := st.Refresh[rtok]
-		res.rqSub, res.rqAud, res.rqScopes, res.rqAMR, res.rqAuth = rt.Subject, rt.Audience, rt.Scopes, rt.AMR, unixOrZero(rt.AuthTime)
-		form := url.Values{"grant_type": {"refresh_token"}, "refresh_token": {rtok}}
-		if p.narrowed != nil {
+		if g.token == "" {
+			first := codeFlow(p, st, f)
+			if first == nil || first.Str("refresh_token") == "" {
+				return res
+			}
+			g.token = first.Str("refresh_token")
+			rt := st.Refresh[g.token]
+			// ground truth of the grant, taken BEFORE any refresh request is made on it
+			g.g0 = append([]string{}, rt.Scopes...)
+			g.sub, g.aud, g.amr, g.auth = rt.Subject, append([]string{}, rt.Audience...), append([]string{}, rt.AMR...), unixOrZero(rt.AuthTime)
+			if rt.Audience == nil {
+				g.aud = nil
+			}
+			if rt.AMR == nil {
+				g.amr = nil
+			}
+		}
+		res.rqSub, res.rqAud, res.rqAMR, res.rqAuth = g.sub, g.aud, g.amr, g.auth
+		// the earlier requests of this case: each presents the token valid at that moment
+		for _, e := range p.earlier {
+			cred := basic(p)
+			if !e.owner {
+				other := map[string]string{"web": "desk", "desk": "web"}[p.cid]
+				cred = []string{other, other + "-secret"}
+			}
+			form := url.Values{"grant_type": {"refresh_token"}, "refresh_token": {g.token}}
+			if len(e.scopes) > 0 {
+				form.Set("scope", strings.Join(e.scopes, " "))
+			}
+			if er := f.Post(p.router, "/oauth/token", form, cred, ""); er.Str("refresh_token") != "" {
+				g.token = er.Str("refresh_token") // accepted: rotated
+			}
+			g.hist = append(g.hist, e)
+		}
+		res.g0, res.earlier = g.g0, append([]earlierReq{}, g.hist...)
+		form := url.Values{"grant_type": {"refresh_token"}, "refresh_token": {g.token}}
+		res.requested = []string{}
+		if len(p.narrowed) > 0 {
 			form.Set("scope", strings.Join(p.narrowed, " "))
-			res.rqScopes = p.narrowed
+			res.requested = p.narrowed
+		}
+		res.rqScopes = standing(g.g0, g.hist) // mirror for tags only
+		if len(res.requested) > 0 {
+			res.rqScopes = res.requested
 		}
 		bracket(func() *opfix.Resp { return f.Post(p.router, "/oauth/token", form, basic(p), "") })
 		fromJSON()
+		g.hist = append(g.hist, earlierReq{owner: true, scopes: res.requested})
+		if res.refresh != "" {
+			g.token = res.refresh
+		}
 	case "device":
 		da := f.Post(p.router, "/device_authorization", url.Values{"scope": {strings.Join(p.scopes, " ")}}, basic(p), "")
 		dc, uc := da.Str("device_code"), da.Str("user_code")
+		if dc != "" && p.prePoll { // a refused request on the same device code first: the user has not decided yet
+			f.Post(p.router, "/oauth/token", url.Values{"grant_type": {string(oidc.GrantTypeDeviceCode)}, "device_code": {dc}}, basic(p), "")
+		}
 		if dc == "" || !st.Approve(uc, p.subject) {
 			return res
 		}
@@ -1690,11 +1859,48 @@ func oneCaseRot(p params, sk, sk2 signState, rot int, st *refstore.Store, f *opf
 		"router=" + p.router.String(), "flow=" + p.flow, "at=" + atKind, "alg=" + string(sk.alg), fmt.Sprintf("skew=%d", p.skew),
 		fmt.Sprintf("idlife=%d", p.idLife), fmt.Sprintf("atlife=%d", p.atLife), "subject_colon=" + colon, "openid=" + openid,
 		"assert=" + emit.Bool(p.assert), fmt.Sprintf("offset=%d", p.offset), fmt.Sprintf("custom=%v", contains(res.rqScopes, "custom:x") || contains(res.rqScopes, "custom:y")),
-		fmt.Sprintf("keyuse=%q", final.use), fmt.Sprintf("keyset=%d+1+%d", len(final.pre), len(final.post)), fmt.Sprintf("rot=%d", rot), fmt.Sprintf("valgs_default=%v", p.vAlgs == nil), "hist=" + hist, fmt.Sprintf("uiscopes=%d", uiCount(res.rqScopes))}
-	w.Add(emit.Case{Input: emit.Ctor("ICase", caseTerm), Observed: observed, Tags: tags,
+		fmt.Sprintf("keyuse=%q", final.use), fmt.Sprintf("keyset=%d+1+%d", len(final.pre), len(final.post)), fmt.Sprintf("rot=%d", rot), fmt.Sprintf("valgs_default=%v", p.vAlgs == nil), "hist=" + hist, fmt.Sprintf("uiscopes=%d", uiCount(res.rqScopes)),
+		"rtstyle=" + map[bool]string{true: "live", false: "copy"}[p.liveGrants], "authtime=" + authClass(p, res),
+		fmt.Sprintf("refused_first=%v", (p.flow == "code" && p.preBadRedirect) || (p.flow == "device" && p.prePoll))}
+	inputTerm := emit.Ctor("ICase", caseTerm)
+	if p.flow == "refresh" {
+		// the request under test ends a history on its grant: the scopes the tokens may carry are
+		// derived in Coq from the authorization's scopes, the earlier requests and the scope parameter
+		es := []string{}
+		nRefused, cur := 0, res.g0
+		for _, e := range res.earlier {
+			es = append(es, emit.Ctor("mkEarlier", emit.Bool(e.owner), emit.StrList(optStrs(e.scopes))))
+			if !e.owner || (len(e.scopes) > 0 && !subsetOf(e.scopes, cur)) {
+				nRefused++
+			}
+			cur = standing(cur, []earlierReq{e})
+		}
+		inputTerm = emit.Ctor("IRefreshed", emit.StrList(optStrs(res.g0)), emit.List(es), emit.StrList(optStrs(res.requested)), caseTerm)
+		final := "none"
+		if len(res.requested) > 0 {
+			final = map[bool]string{true: "within", false: "beyond"}[subsetOf(res.requested, cur)]
+		}
+		tags = append(tags, fmt.Sprintf("rt_earlier=%d", len(res.earlier)), fmt.Sprintf("rt_refused=%d", nRefused), "rt_scope="+final)
+	}
+	w.Add(emit.Case{Input: inputTerm, Observed: observed, Tags: tags,
 		Human: map[string]any{"params": fmt.Sprintf("%+v", p), "status": res.status, "access_token": res.access, "id_token": res.idToken,
 			"subject": res.rqSub, "scopes": res.rqScopes}})
 	return true
+}
+
+// authClass: value class of the request's authentication time
+func authClass(p params, res *result) string {
+	switch {
+	case strings.HasPrefix(p.flow, "te_") || p.flow == "cc" || p.flow == "jwt_bearer":
+		return "na"
+	case res.rqAuth == 0:
+		return "zero"
+	case p.authAgo == 0:
+		return "now"
+	case p.authAgo > 86400:
+		return "old"
+	}
+	return "recent"
 }
 
 var sixAlgs = []string{"RS256", "PS256", "ES256", "ES384", "ES512", "EdDSA"}
@@ -1704,7 +1910,7 @@ var sixAlgs = []string{"RS256", "PS256", "ES256", "ES384", "ES512", "EdDSA"}
 // Every response is verified against the key set served at that time.
 func history(r drv.Rand, p params, sk1 signState, algs []algDef, pool []any, w *emit.Writer, tl *tally) {
 	kind := drv.Pick(r, []string{"same_kid_new_key", "new_kid_new_key", "same_kid_new_alg", "two_providers", "in_request", "in_request", "in_request",
-		"two_issuers", "two_issuers", "omit_after", "omit_after", "omit_after"})
+		"two_issuers", "two_issuers", "omit_after", "omit_after", "omit_after", "refresh_chain", "refresh_chain", "refresh_chain", "refresh_chain"})
 	other := algs[p.key].mats[1-p.mat]
 	sk2, p2 := sk1, p
 	newAlg := func() {
@@ -1713,6 +1919,47 @@ func history(r drv.Rand, p params, sk1 signState, algs []algDef, pool []any, w *
 		p2.key = j
 	}
 	switch kind {
+	case "refresh_chain":
+		// one grant, a chain of refresh requests on it, EACH a case of its own: without scope / within
+		// what the token stands for (accepted: the token rotates and stands for the narrowed scopes) /
+		// beyond it or by the other client (refused: nothing issued - and nothing changed for the next).
+		// Mostly on a storage that hands the framework its live record.
+		pc := p
+		pc.flow, pc.refreshGrant, pc.narrowed, pc.earlier = "refresh", true, nil, nil
+		pc.liveGrants = r.Chance(3, 4)
+		if pc.subject == "pkjwt" {
+			pc.subject = "alice"
+		}
+		// claim names: drawn anew for the refresh flow (variants only of members its tokens are certain to carry)
+		pc.scopes = without(pc.scopes, pc.customs)
+		pc.customs = nil
+		if !contains(pc.scopes, "offline_access") {
+			pc.scopes = append(append([]string{}, pc.scopes...), "offline_access")
+		}
+		if r.Bool() {
+			pc.customs = customNameScopes(r, pc)
+			pc.scopes = append(append([]string{}, pc.scopes...), pc.customs...)
+		}
+		g := &grantState{}
+		pc.grant = g
+		st, f := setup(pc, sk1, []string{string(sk1.alg)})
+		cur := pc.scopes
+		for i, n := 0, 3+r.IntN(3); i < n; i++ {
+			pi := pc
+			pi.earlier = nil
+			if r.Chance(1, 2) { // a request that is not under test in between, mostly a refused one
+				e := genRefreshStep(r, cur, pc.scopes, true)
+				pi.earlier = []earlierReq{e}
+				cur = standing(cur, pi.earlier)
+			}
+			pi.narrowed = genFinalScopes(r, cur, pc.scopes)
+			if i == 0 && pi.earlier == nil {
+				pi.narrowed = beyond(r, cur, pc.scopes) // the chain opens with a refused request under test
+			}
+			oneCase(pi, sk1, st, f, pool, fmt.Sprintf("%s.%d", kind, i+1), w, tl)
+			cur = standing(cur, []earlierReq{{owner: true, scopes: pi.narrowed}})
+		}
+		return
 	case "two_issuers":
 		// one provider whose issuer is derived from each request: the same flow for host A, host B, host A
 		pA, pB := p, p
@@ -1762,7 +2009,7 @@ func history(r drv.Rand, p params, sk1 signState, algs []algDef, pool []any, w *
 		}
 		bare.flow = drv.Pick(r, bareFlows)
 		bare.nonce, bare.acr, bare.amr, bare.aud, bare.state, bare.authAgo = "", "", []string{}, nil, "", -1
-		bare.vACR, bare.customs, bare.narrowed, bare.teAudience = nil, nil, nil, nil
+		bare.vACR, bare.customs, bare.narrowed, bare.teAudience, bare.earlier = nil, nil, nil, nil, nil
 		bare.scopes = []string{"openid"}
 		switch bare.flow {
 		case "implicit_id":
@@ -1879,7 +2126,7 @@ func main() {
 		history(r, p, sk0(p, algs), algs, pool, w, tl)
 	}
 	err := w.Close(emit.Meta{Property: "C06", Tier: cfg.Tier, Seed: cfg.Seed,
-		Rule: "one case = one token response: a complete flow (code, implicit id_token / id_token token, refresh, device, client_credentials, jwt-bearer, token-exchange for access / refresh / ID token) run over HTTP recorders against the Provider or LegacyServer router on refstore; flow and router cycle deterministically, the rest is drawn from the PRNG: signing key (RS256, PS256, ES256, ES384, ES512, EdDSA; two key materials per algorithm under the SAME kid, kid shared across algorithms in half of the cases; published with use sig or without use, with further keys before / after it: previous key, an enc key and a key of another type under the same kid, rarely a clashing signature key), access-token type, client clock skew (0, +-30 s), ID/access-token lifetimes, scope set (15 base sets plus a random extra standard scope: with/without openid, every subset pattern of profile/email/phone/address, offline_access, custom:x/y; the storage serves a distinct claim group per standard scope and marks userinfo scopes that reach the private-claims lookup), restricted scopes, userinfo-assertion flag, subject (also with ':', unknown to the user store, case / white-space neighbours of other subjects, keyword-like values; a sixth of the cases and every slot of the Unicode sweep - each 8th slot, mostly opaque tokens, flows that read the token back - take the next of 27 subjects that cover U+0080-U+00FF completely, i.e. every UTF-8 continuation byte 0x80-0xBF, C1 controls, NBSP, soft hyphen, Latin Extended, Greek, Cyrillic, Hebrew, Arabic, CJK, Hangul, emoji with ZWJ, combining marks, BOM, the 2/3/4-byte boundaries, with and without ':'), the storage's access-token ids (at<n>, or at<n> plus such a Unicode suffix), client (web, or the same registration as desk), issuer strategy (static; or - every other block of all flows x routers plus a quarter of the rest - derived from each request: op.IssuerFromHost, or op.IssuerFromForwardedOrHost with the Forwarded header or with a custom header, where a reverse proxy in front of the provider moves the external host into that header and hands every request on with the SAME upstream Host, or lets it through directly; five external hosts incl. a port and mixed case), storage style of the userinfo calls (sets fields of the destination / replaces the whole struct; both hooks fill everything / SetUserinfoFromScopes does the standard claims and the optional SetUserinfoFromRequest only adds the custom ones), the storage-defined audience (default, empty, the exact client id, near misses of the client id: case variants, U+017F / U+212A fold variants, white space / %20 / + / tab / LF around it, trailing slash; other values; several; for authorization, device and token-exchange requests), custom claim names (half of the cases add 1-2 scopes custom:<n>, which the storage turns into the private claim <n> of a JWT access token and the userinfo claim <n> of an ID token: exact names, ASCII-case variants and U+017F / U+212A fold variants of the registered members this case's tokens are certain to carry, near misses that fold to no member, variants of sid / scope), the token-exchange storage policy of the fixture (plain, or ValidateTokenExchangeRequest retargets the request's subject - another known / unknown user - and / or empties its scopes; the request may ask for scope drop, which the storage removes; a third of the exchanges present an actor_token of a third user: the case names the request's FINAL subject / scopes and the actor), nonce/acr/state (also white space at the ends, null / 0 / false / [], longer than 1 KiB and 4 KiB), amr, auth time, and the verifier configuration (consistent in most cases; default algorithm list, short offset against a negative skew as inconsistent ones). Every fourth slot is a multi-issuance history in one store/provider (tag hist=): issue, replace the storage's signing key (same kid new material and back; new kid new material with the old key still published; same kid other algorithm), issue again - or two providers alive at once with the same kid and different key material, issuing alternately, or the signing key replaced after the 1st / 2nd Storage.SigningKey call WITHIN the request under test (new kid, mostly another hash family, both keys published), or one dynamic-issuer provider serving external host A, host B, host A - by Host, or both through the same proxy upstream Host by Forwarded / custom header, B sometimes directly (two_issuers), or one provider serving a request that carries every optional field (nonce, acr, amr, audience, auth time, custom claims), then a request of another flow / maybe the other client for the same subject that OMITS them, then the rich request for the other client, then the first again (omit_after); each response is a case of its own whose input names the key current at that issuance and which is verified against the /keys document served at that time. Claims are compared as the library's own decoder reads the signed payload (json.Unmarshal into oidc.IDTokenClaims / oidc.AccessTokenClaims). Every case issues tokens, so non-trivial = all; distinct = distinct (input, model path class: flow x token kind x refresh token x verdicts).",
+		Rule: "one case = one token response: a complete flow (code, implicit id_token / id_token token, refresh, device, client_credentials, jwt-bearer, token-exchange for access / refresh / ID token) run over HTTP recorders against the Provider or LegacyServer router on refstore; flow and router cycle deterministically, the rest is drawn from the PRNG: signing key (RS256, PS256, ES256, ES384, ES512, EdDSA; two key materials per algorithm under the SAME kid, kid shared across algorithms in half of the cases; published with use sig or without use, with further keys before / after it: previous key, an enc key and a key of another type under the same kid, rarely a clashing signature key), access-token type, client clock skew (0, +-30 s), ID/access-token lifetimes, scope set (15 base sets plus a random extra standard scope: with/without openid, every subset pattern of profile/email/phone/address, offline_access, custom:x/y; the storage serves a distinct claim group per standard scope and marks userinfo scopes that reach the private-claims lookup), restricted scopes, userinfo-assertion flag, subject (also with ':', unknown to the user store, case / white-space neighbours of other subjects, keyword-like values; a sixth of the cases and every slot of the Unicode sweep - each 8th slot, mostly opaque tokens, flows that read the token back - take the next of 27 subjects that cover U+0080-U+00FF completely, i.e. every UTF-8 continuation byte 0x80-0xBF, C1 controls, NBSP, soft hyphen, Latin Extended, Greek, Cyrillic, Hebrew, Arabic, CJK, Hangul, emoji with ZWJ, combining marks, BOM, the 2/3/4-byte boundaries, with and without ':'), the storage's access-token ids (at<n>, or at<n> plus such a Unicode suffix), client (web, or the same registration as desk), issuer strategy (static; or - every other block of all flows x routers plus a quarter of the rest - derived from each request: op.IssuerFromHost, or op.IssuerFromForwardedOrHost with the Forwarded header or with a custom header, where a reverse proxy in front of the provider moves the external host into that header and hands every request on with the SAME upstream Host, or lets it through directly; five external hosts incl. a port and mixed case), storage style of the userinfo calls (sets fields of the destination / replaces the whole struct; both hooks fill everything / SetUserinfoFromScopes does the standard claims and the optional SetUserinfoFromRequest only adds the custom ones), the storage-defined audience (default, empty, the exact client id, near misses of the client id: case variants, U+017F / U+212A fold variants, white space / %20 / + / tab / LF around it, trailing slash; other values; several; for authorization, device and token-exchange requests), custom claim names (half of the cases add 1-2 scopes custom:<n>, which the storage turns into the private claim <n> of a JWT access token and the userinfo claim <n> of an ID token: exact names, ASCII-case variants and U+017F / U+212A fold variants of the registered members this case's tokens are certain to carry, near misses that fold to no member, variants of sid / scope), the token-exchange storage policy of the fixture (plain, or ValidateTokenExchangeRequest retargets the request's subject - another known / unknown user - and / or empties its scopes; the request may ask for scope drop, which the storage removes; a third of the exchanges present an actor_token of a third user: the case names the request's FINAL subject / scopes and the actor), nonce/acr/state (also white space at the ends, null / 0 / false / [], longer than 1 KiB and 4 KiB), amr, auth time, and the verifier configuration (consistent in most cases; default algorithm list, short offset against a negative skew as inconsistent ones). Every fourth slot is a multi-issuance history in one store/provider (tag hist=): issue, replace the storage's signing key (same kid new material and back; new kid new material with the old key still published; same kid other algorithm), issue again - or two providers alive at once with the same kid and different key material, issuing alternately, or the signing key replaced after the 1st / 2nd Storage.SigningKey call WITHIN the request under test (new kid, mostly another hash family, both keys published), or one dynamic-issuer provider serving external host A, host B, host A - by Host, or both through the same proxy upstream Host by Forwarded / custom header, B sometimes directly (two_issuers), or one provider serving a request that carries every optional field (nonce, acr, amr, audience, auth time, custom claims), then a request of another flow / maybe the other client for the same subject that OMITS them, then the rich request for the other client, then the first again (omit_after); or a chain of 3-5 refresh requests on ONE grant, each a case of its own (refresh_chain: without scope / within what the token stands for / beyond it / by the other client, mostly on a storage that hands the framework its LIVE refresh-token record); every refresh case is the end of a history on its grant (0-3 earlier requests: accepted narrowings that rotate the token, refused ones - a scope beyond the grant, the other client presenting the token - that must change nothing; input IRefreshed g0 earlier requested: the scopes the tokens may carry are derived in Coq from the authorization's scopes, the earlier requests and the scope parameter, never read back from the storage; a request under test that asks beyond the grant must issue nothing: trivial case); a third of the device flows poll once before the approval and a quarter of the code flows present the code with another redirect_uri first (refused requests before the issuance); the request's authentication time is the zero time (none recorded), now, 1 s / 60 s / 50 min / 400 days ago; each response is a case of its own whose input names the key current at that issuance and which is verified against the /keys document served at that time. Claims are compared as the library's own decoder reads the signed payload (json.Unmarshal into oidc.IDTokenClaims / oidc.AccessTokenClaims). Every case issues tokens, so non-trivial = all; distinct = distinct (input, model path class: flow x token kind x refresh token x verdicts).",
 		Extra: map[string]any{"clock_ambiguous": tl.ambiguous, "setup_failed": tl.failedSetup}})
 	if err != nil {
 		fmt.Fprintln(os.Stderr, err)
